@@ -3,7 +3,9 @@
    for a refutation) and followed by Print Assumptions. *)
 From Coq Require Import ZArith QArith List Bool Lia.
 From NV Require Import Base.Bytes C16.Tables C16.Model C16.ModelAffine
-  C16.Lemmas C16.LemmasTrk C16.LemmasTckHdr C16.LemmasAffine C16.ModelLazy C16.LemmasLazy.
+  C16.Lemmas C16.LemmasTrk C16.LemmasTckHdr C16.LemmasAffine C16.ModelLazy C16.LemmasLazy C16.LemmasSession.
+From Coq Require Reals.
+From NV Require C16.ModelFloat C16.LemmasFloat.
 Import ListNotations.
 Open Scope Z_scope.
 
@@ -171,6 +173,66 @@ Theorem C16_position_restored :
      fpos f' = fpos f /\ fbytes f' = fbytes f).
 Proof. split; [exact tck_session_restores|exact trk_session_restores]. Qed.
 Print Assumptions C16_position_restored.
+
+(* ---- lazy and eager loading agree: for ANY file object (any bytes, any position) on which both
+   loads succeed, every COMPLETE pass over the streamlines of the lazily loaded file - after any
+   earlier complete or abandoned passes - returns exactly what the eager load returns (each pass
+   starts from the same position and bytes: C16_position_restored).  pass_agrees says nothing
+   about an abandoned pass (its first k items are compared by the harness only). *)
+Theorem C16_lazy_equals_eager :
+  (forall b ps0 passes f r0 fe r f',
+     tck_session b false ps0 f = Ok (r0, fe) -> tck_session b true passes f = Ok (r, f') ->
+     exists re, r0 = [re] /\ Forall2 (pass_agrees re) (PAbandon 1 :: passes) r)
+  /\ (forall o ps0 passes f r0 fe r f',
+     trk_session o false ps0 f = Ok (r0, fe) -> trk_session o true passes f = Ok (r, f') ->
+     exists re, r0 = [re] /\ Forall2 (pass_agrees re) (PAbandon 1 :: passes) r).
+Proof. split; [exact tck_lazy_eager|exact trk_lazy_eager]. Qed.
+Print Assumptions C16_lazy_equals_eager.
+
+(* ---- FLOAT ARITHMETIC of the TRK coordinates, first bound (Flocq, round-to-nearest-even in the
+   formats FLX 53 / FLX 24: unbounded exponent range, i.e. no overflow and no subnormal product),
+   for ONE coordinate in the common DIAGONAL case (voxel sizes + translation; header voxel order
+   and orientation of vox_to_ras equal up to axis flips): trackvis->RAS+mm is x |-> a x + b and
+   RAS+mm->trackvis is x |-> a' x + b' with float64 a, b, a', b'.
+   coord_apply a b x = f32(fl64(fl64(a x) + b)) is what apply_affine computes and what is stored
+   (save: '<f4' record; eager load: the float32 coordinate array); coord_apply64 keeps the
+   float64 (lazy load).  u64 = 2^-53, u32 = 2^-24, e64 = 3 u64, e32 = u32 + (1 + u32) 3 u64.
+   One step is within e32 (e64) of the exact a x + b, relative to the magnitude budget
+   |a x| + |b|; save followed by load returns x within
+     e32 (|a y| + |b|) + |a| e32 (|a' x| + |b'|) + |a a' - 1| |x| + |a b' + b|      (y = stored voxmm)
+   where the last two terms are the residuals of the numerical inverse (np.linalg.inv), zero for
+   an exact inverse.  With both budgets about |x| this is ~ 2 * 2^-24 |x| = one float32 ulp of x:
+   "equal to single precision". *)
+Module FloatBound.
+Import Reals C16.ModelFloat.
+Local Open Scope R_scope.
+
+Theorem C16_trk_coord_step_bound : forall a b x,
+  Rabs (coord_apply a b x - (a * x + b)) <= e32 * (Rabs (a * x) + Rabs b)
+  /\ Rabs (coord_apply64 a b x - (a * x + b)) <= e64 * (Rabs (a * x) + Rabs b).
+Proof. intros a b x. split; [exact (C16.LemmasFloat.coord_apply_err a b x)|exact (C16.LemmasFloat.coord_apply64_err a b x)]. Qed.
+Print Assumptions C16_trk_coord_step_bound.
+
+Theorem C16_trk_coord_roundtrip_bound : forall a b a' b' x,
+  let y := coord_apply a' b' x in
+  Rabs (trk_coord_roundtrip a b a' b' x - x)
+  <= e32 * (Rabs (a * y) + Rabs b) + Rabs a * (e32 * (Rabs (a' * x) + Rabs b'))
+     + Rabs (a * a' - 1) * Rabs x + Rabs (a * b' + b).
+Proof. exact C16.LemmasFloat.trk_roundtrip_err. Qed.
+Print Assumptions C16_trk_coord_roundtrip_bound.
+
+Theorem C16_trk_coord_roundtrip_bound_lazy : forall a b a' b' x,
+  let y := coord_apply a' b' x in
+  Rabs (trk_coord_roundtrip_lazy a b a' b' x - x)
+  <= e64 * (Rabs (a * y) + Rabs b) + Rabs a * (e32 * (Rabs (a' * x) + Rabs b'))
+     + Rabs (a * a' - 1) * Rabs x + Rabs (a * b' + b).
+Proof. exact C16.LemmasFloat.trk_roundtrip_lazy_err. Qed.
+Print Assumptions C16_trk_coord_roundtrip_bound_lazy.
+
+Theorem C16_float_units : u64 = / IZR (2 ^ 53) /\ u32 = / IZR (2 ^ 24).
+Proof. exact C16.LemmasFloat.u_values. Qed.
+Print Assumptions C16_float_units.
+End FloatBound.
 
 Definition one_tck : list (list triple) := [[(1065353216, 0, 3212836864)]; [(7, 8, 9); (1, 2, 3)]].
 Definition one_trk : list trk_stream :=
